@@ -16,10 +16,13 @@ func init()            { core.Register(c03{}) }
 func (c03) ID() string { return "C03" }
 
 type c03Case struct {
-	KVs    []kv   `json:"kvs"`
-	Full   bool   `json:"full"` // all 16 compression pairs
-	OnlyW  *tblW  `json:"only_w,omitempty"`
-	OnlyR  *tblR  `json:"only_r,omitempty"`
+	KVs   []kv  `json:"kvs"`
+	Full  bool  `json:"full"` // all 16 compression pairs
+	OnlyW *tblW `json:"only_w,omitempty"`
+	OnlyR *tblR `json:"only_r,omitempty"`
+	// Seq > 0: a table of Seq sequential keys k0002, k0004, ... (even numbers, so every odd one is an absent probe in between)
+	Seq    int    `json:"seq,omitempty"`
+	SeqW   int    `json:"seqw,omitempty"` // 1-based index into the write configurations (0 = all)
 	Sample string `json:"-"`
 }
 
@@ -71,6 +74,18 @@ func (c c03) Run(ctx *core.Ctx) error {
 		}
 	}
 	rec2(0, nil)
+	// larger tables (index search paths with more than a handful of entries): n sequential keys with holes between them
+	sizes := []int{5, 8, 17, 40}
+	if ctx.Tier == "thorough" {
+		sizes = append(sizes, 129, 1000)
+	}
+	for _, n := range sizes {
+		// one case per write configuration (the probe set of a large table is big)
+		for wi := 0; wi < 40; wi++ {
+			cases = append(cases, core.J(c03Case{Seq: n, SeqW: wi + 1}))
+		}
+	}
+	ctx.Ev.Bounds["sequential_key_tables"] = sizes
 	ctx.Ev.Rule = "every table = ascending subset of 6 keys (\"\", a, ab, b, the marker bytes, a 600-byte key) with values from {nil, empty, v, ..91, marker+00+ff*10, 5000 incompressible bytes} up to the size bound (one size larger with 3 values), written by the stream writer (buffers 5 and 4096) and the skip-list writer, x compression pairs x bloom sizing {1, default}, opened with {slice, skip-list, map[4]byte, disk} loaders x read buffers {5,4096}; probes: Contains/Get for 11 keys (present, absent, below min, above max, between), Scan, ScanStartingAt(each), ScanRange(all pairs, lower>upper must fail), metadata. distinct = (table, write config, read config); non-trivial = table has >= 1 record"
 	ctx.Ev.Bounds["tables_full_value_alphabet"] = nfull
 	ctx.Ev.Bounds["tables_reduced_value_alphabet"] = len(cases) - nfull
@@ -102,6 +117,35 @@ func (c c03) Case(w *core.WCtx, payload json.RawMessage) core.Result {
 	}
 	var r core.Result
 	sorted := cs.KVs
+	var seqProbes [][]byte
+	if cs.Seq > 0 {
+		sorted = nil
+		for i := 1; i <= cs.Seq; i++ {
+			var v []byte
+			switch i % 4 {
+			case 0:
+				v = nil
+			case 1:
+				v = []byte(fmt.Sprintf("value-%d", i))
+			case 2:
+				v = []byte{}
+			default:
+				v = incompressible(30+i%7, uint64(i))
+			}
+			sorted = append(sorted, kv{[]byte(fmt.Sprintf("k%04d", 2*i)), v})
+		}
+		// probes: every key, every gap, below and above (all of them for small tables, a spread for the big ones)
+		step := 1
+		if cs.Seq > 40 {
+			step = cs.Seq / 20
+		}
+		for i := 0; i <= 2*cs.Seq+2; i++ {
+			if i%step == 0 || i <= 6 || i >= 2*cs.Seq-4 {
+				seqProbes = append(seqProbes, []byte(fmt.Sprintf("k%04d", i)))
+			}
+		}
+		seqProbes = append(seqProbes, []byte("a"), []byte("z"))
+	}
 	var wcfgs []tblW
 	pairs := [][2]int{{0, 0}, {1, 1}, {2, 2}, {3, 3}, {2, 0}}
 	if cs.Full {
@@ -142,6 +186,12 @@ func (c c03) Case(w *core.WCtx, payload json.RawMessage) core.Result {
 	if cs.OnlyW != nil {
 		wcfgs = []tblW{*cs.OnlyW}
 	}
+	if cs.SeqW > 0 {
+		if cs.SeqW > len(wcfgs) {
+			return r
+		}
+		wcfgs = wcfgs[cs.SeqW-1 : cs.SeqW]
+	}
 	if cs.OnlyR != nil {
 		rcfgs = []tblR{*cs.OnlyR}
 	}
@@ -152,6 +202,9 @@ func (c c03) Case(w *core.WCtx, payload json.RawMessage) core.Result {
 		}
 	}
 	probes := c03Probes()
+	if cs.Seq > 0 {
+		probes = seqProbes
+	}
 	var probes4 [][]byte
 	for _, p := range probes {
 		if len(p) <= 4 {
